@@ -9,9 +9,8 @@ import (
 	"testing"
 
 	"github.com/gotid/god/internal/verifc01"
+	"github.com/gotid/god/internal/verifc01/grpcerr"
 	"github.com/gotid/god/lib/breaker"
-	gcodes "google.golang.org/grpc/codes"
-	"google.golang.org/grpc/status"
 )
 
 type c01CodesTarget struct{ prefix string }
@@ -19,19 +18,12 @@ type c01CodesTarget struct{ prefix string }
 func (t *c01CodesTarget) Disable(string) { panic("c01 codes driver: disable is not part of the integration table") }
 
 func (t *c01CodesTarget) Do(name string, c verifc01.Call) (o verifc01.Obs) {
-	want := status.Error(gcodes.Code(c.N), "c01") // nil for OK
+	want := grpcerr.Want(c) // the row's error value (status / wrapped / plain / context / foreign), nil for OK
 	err := breaker.DoWithAcceptable(t.prefix+name, func() error {
 		o.Req++
 		return want
 	}, Acceptable)
-	switch {
-	case err == breaker.ErrServiceUnavailable:
-		o.Ret = "unavail"
-	case err != want:
-		o.Ret = fmt.Sprintf("other:%v", err)
-	default:
-		o.Ret = status.Code(err).String()
-	}
+	o.Ret = grpcerr.Label(err, want)
 	return
 }
 
